@@ -654,12 +654,12 @@ impl Sim {
         let sub = sub.to_string();
         tokio::task::spawn_local(async move {
             let request_stream = futures::stream::poll_fn(move |cx| rx.poll_recv(cx));
-            let mut c = sim.subscriber();
-            let started = tokio::time::timeout(
-                HANG_LIMIT,
-                Guarded::new(async move { c.streaming_pull(request_stream).await }, 0, Some(cancel.clone())),
-            )
-            .await;
+            let started = if let Some(mut cc) = sim.subscriber_conn() {
+                tokio::time::timeout(HANG_LIMIT, Guarded::new(async move { cc.streaming_pull(request_stream).await }, 0, Some(cancel.clone()))).await
+            } else {
+                let mut c = sim.subscriber();
+                tokio::time::timeout(HANG_LIMIT, Guarded::new(async move { c.streaming_pull(request_stream).await }, 0, Some(cancel.clone()))).await
+            };
             let mut stream = match started {
                 Err(_) => {
                     sim.log(client, Ev::StreamStarted { slot, code: -2 });
